@@ -671,7 +671,8 @@ func (e *Engine) maskAxioms(st *State, b ByteV) {
 	if !ok {
 		return
 	}
-	for k2, o := range st.masks {
+	for _, k2 := range sortedMaskKeys(st) {
+		o := st.masks[k2]
 		if k2 == k || o.Root != me.Root || !o.M.and(me.M).empty() {
 			continue
 		}
